@@ -48,18 +48,39 @@ inline std::vector<int> parse_variants(const std::string &csv) {
 template<class W>
 using CycleList = std::list<std::list<typename vb::Built<W>::Edge>>;
 
+// Kind of output iterator the caller hands in: 0 = std::back_inserter into a list (what every test and demo of the
+// repository uses), 1 = a POSITIONAL iterator into a pre-sized vector. The entry points take "an output iterator"; a
+// positional one is advanced by copies of itself, so code that passes it by value to a helper and keeps using the original
+// overwrites what the helper wrote. The buffer has slack behind the expected count; whatever lands there is reported too.
+inline int &out_kind() { static int k = 0; return k; }
+
+template<class W, class Call>
+W run_with_output(vb::Built<W> &b, CycleList<W> &cycles, Call call) {
+    if (out_kind() == 0) return call(std::back_inserter(cycles));
+    // expected number of cycles = m - n + c of the caller's graph
+    std::size_t n = boost::num_vertices(b.g), m = boost::num_edges(b.g);
+    std::vector<std::size_t> par(n); for (std::size_t i = 0; i < n; ++i) par[i] = i;
+    auto find = [&](std::size_t x) { while (par[x] != x) { par[x] = par[par[x]]; x = par[x]; } return x; };
+    std::size_t comps = n;
+    for (auto &e : b.ends) { std::size_t a = find((std::size_t) e.first), c = find((std::size_t) e.second); if (a != c) { par[a] = c; --comps; } }
+    std::size_t expected = m + comps - n;
+    std::vector<std::list<typename vb::Built<W>::Edge>> buf(expected + 16);
+    W ret = call(buf.begin());
+    for (std::size_t i = 0; i < buf.size(); ++i) if (i < expected || !buf[i].empty()) cycles.push_back(buf[i]);
+    return ret;
+}
+
 template<class W>
 W run_exact(int variant, vb::Built<W> &b, CycleList<W> &cycles) {
     auto wm = boost::get(boost::edge_weight, b.g);
-    auto out = std::back_inserter(cycles);
     switch (variant) {
-    case SIGNED: return parmcb::mcb_sva_signed(b.g, wm, out);
-    case FVS: return parmcb::mcb_sva_fvs_trees(b.g, wm, out);
-    case ISO: return parmcb::mcb_sva_iso_trees(b.g, wm, out);
+    case SIGNED: return run_with_output<W>(b, cycles, [&](auto out) { return parmcb::mcb_sva_signed(b.g, wm, out); });
+    case FVS: return run_with_output<W>(b, cycles, [&](auto out) { return parmcb::mcb_sva_fvs_trees(b.g, wm, out); });
+    case ISO: return run_with_output<W>(b, cycles, [&](auto out) { return parmcb::mcb_sva_iso_trees(b.g, wm, out); });
 #ifdef VH_TBB
-    case SIGNED_TBB: return parmcb::mcb_sva_signed_tbb(b.g, wm, out);
-    case FVS_TBB: return parmcb::mcb_sva_fvs_trees_tbb(b.g, wm, out);
-    case ISO_TBB: return parmcb::mcb_sva_iso_trees_tbb(b.g, wm, out);
+    case SIGNED_TBB: return run_with_output<W>(b, cycles, [&](auto out) { return parmcb::mcb_sva_signed_tbb(b.g, wm, out); });
+    case FVS_TBB: return run_with_output<W>(b, cycles, [&](auto out) { return parmcb::mcb_sva_fvs_trees_tbb(b.g, wm, out); });
+    case ISO_TBB: return run_with_output<W>(b, cycles, [&](auto out) { return parmcb::mcb_sva_iso_trees_tbb(b.g, wm, out); });
 #endif
     }
     fprintf(stderr, "variant %d not compiled in\n", variant); exit(2);
@@ -68,15 +89,14 @@ W run_exact(int variant, vb::Built<W> &b, CycleList<W> &cycles) {
 template<class W>
 W run_approx(int variant, vb::Built<W> &b, std::size_t k, CycleList<W> &cycles) {
     auto wm = boost::get(boost::edge_weight, b.g);
-    auto out = std::back_inserter(cycles);
     switch (variant) {
-    case SIGNED: return parmcb::approx_mcb_sva_signed(b.g, wm, k, out);
-    case FVS: return parmcb::approx_mcb_sva_fvs_trees(b.g, wm, k, out);
-    case ISO: return parmcb::approx_mcb_sva_iso_trees(b.g, wm, k, out);
+    case SIGNED: return run_with_output<W>(b, cycles, [&](auto out) { return parmcb::approx_mcb_sva_signed(b.g, wm, k, out); });
+    case FVS: return run_with_output<W>(b, cycles, [&](auto out) { return parmcb::approx_mcb_sva_fvs_trees(b.g, wm, k, out); });
+    case ISO: return run_with_output<W>(b, cycles, [&](auto out) { return parmcb::approx_mcb_sva_iso_trees(b.g, wm, k, out); });
 #ifdef VH_TBB
-    case SIGNED_TBB: return parmcb::approx_mcb_sva_signed_tbb(b.g, wm, k, out);
-    case FVS_TBB: return parmcb::approx_mcb_sva_fvs_trees_tbb(b.g, wm, k, out);
-    case ISO_TBB: return parmcb::approx_mcb_sva_iso_trees_tbb(b.g, wm, k, out);
+    case SIGNED_TBB: return run_with_output<W>(b, cycles, [&](auto out) { return parmcb::approx_mcb_sva_signed_tbb(b.g, wm, k, out); });
+    case FVS_TBB: return run_with_output<W>(b, cycles, [&](auto out) { return parmcb::approx_mcb_sva_fvs_trees_tbb(b.g, wm, k, out); });
+    case ISO_TBB: return run_with_output<W>(b, cycles, [&](auto out) { return parmcb::approx_mcb_sva_iso_trees_tbb(b.g, wm, k, out); });
 #endif
     }
     fprintf(stderr, "variant %d not compiled in\n", variant); exit(2);
